@@ -5,6 +5,7 @@ package main
 import (
 	"fmt"
 	"go/types"
+	"sort"
 	"strconv"
 	"strings"
 
@@ -19,6 +20,8 @@ type SV struct {
 	GV   types.Type // ghost total map: value type
 	Math bool       // mathematical integer
 }
+
+var seqType types.Type = types.NewNamed(types.NewTypeName(0, nil, "seq", nil), types.NewStruct(nil, nil), nil)
 
 var (
 	tBool   = types.Typ[types.Bool]
@@ -872,6 +875,21 @@ func (env *SpecEnv) evalCall(x *SExpr) *SV {
 				out.L = append(out.L, store(m.V.L[i], k.V.L[0], v.V.L[i]))
 			}
 			return &SV{V: out, GK: m.GK, GV: m.GV}
+		case "seq":
+			// the abstract sequence of a []string
+			a := env.eval(args[0])
+			if a == nil || len(a.V.L) != 3 {
+				env.errorf("seq() needs a slice")
+				return nil
+			}
+			sl, ok := a.T.Underlying().(*types.Slice)
+			if !ok {
+				env.errorf("seq() needs a slice")
+				return nil
+			}
+			e.seqSetup()
+			row := sel(e.heapGet(env.state(), e.keyElemOf(sl.Elem(), 0, a.V.L[0])), a.V.L[0])
+			return &SV{V: scalar(app("seqof", row, a.V.L[1], a.V.L[2])), T: seqType}
 		case "sliceoff":
 			a := env.eval(args[0])
 			if a == nil || len(a.V.L) != 3 {
@@ -1037,6 +1055,20 @@ func (env *SpecEnv) evalCall(x *SExpr) *SV {
 			var terms []string
 			for i, at := range uf.Args {
 				t := e.resolveType(at, uf.Pkg)
+				if sl, isSlice := t.(*types.Slice); t != nil && isSlice {
+					// a slice argument is passed as (contents row, offset, length)
+					es := e.fl.leaves(sl.Elem())[0].Sort
+					sorts = append(sorts, arrSort(SInt, es), SInt, SInt)
+					if i < len(args) {
+						av := env.eval(args[i])
+						if av == nil || len(av.V.L) != 3 {
+							return nil
+						}
+						row := sel(e.heapGet(env.state(), e.keyElemOf(sl.Elem(), 0, av.V.L[0])), av.V.L[0])
+						terms = append(terms, row, av.V.L[1], av.V.L[2])
+					}
+					continue
+				}
 				so := SInt
 				if t != nil {
 					so = e.fl.leaves(t)[0].Sort
@@ -1053,11 +1085,18 @@ func (env *SpecEnv) evalCall(x *SExpr) *SV {
 			rt := e.resolveType(uf.Res, uf.Pkg)
 			rs := SInt
 			var rT types.Type = tMath
+			if uf.Res.Name == "seq" && uf.Res.Pkg == "" {
+				e.seqSetup()
+				f := e.c.fun("uf_"+uf.Name, sorts, "SeqStr")
+				e.includeRawAxioms()
+				return &SV{V: scalar(app(f, terms...)), T: seqType}
+			}
 			if rt != nil && !(uf.Res.Name == "int" && uf.Res.Pkg == "") {
 				rs = e.fl.leaves(rt)[0].Sort
 				rT = rt
 			}
 			f := e.c.fun("uf_"+uf.Name, sorts, rs)
+			e.includeRawAxioms()
 			sv := &SV{V: scalar(app(f, terms...)), T: rT}
 			if rT == tMath {
 				sv.Math = true
@@ -1300,4 +1339,71 @@ func (env *SpecEnv) evalSplit(x *SExpr) []namedTerm {
 
 func (fx *FnExec) evalSpecSplit(x *SExpr, st *State, old *State, loop *loopInfo) []namedTerm {
 	return fx.specEnv(st, old, loop).evalSplit(x)
+}
+
+// seqSetup declares the abstract sequence sort of strings with its definitional axioms.
+func (e *Engine) seqSetup() {
+	c := e.c
+	if _, ok := c.decls["seqof"]; ok {
+		return
+	}
+	c.declareSort("SeqStr")
+	str := e.fl.strSort()
+	c.add(&decl{name: "seq_empty", sort: "SeqStr", deps: []string{"sort:SeqStr"}})
+	c.fun("seq_single", []Sort{str}, "SeqStr")
+	c.fun("seq_cat", []Sort{"SeqStr", "SeqStr"}, "SeqStr")
+	c.fun("seqof", []Sort{arrSort(SInt, str), SInt, SInt}, "SeqStr")
+	row := arrSort(SInt, str)
+	c.axiom("seq:len0", fmt.Sprintf("(forall ((r!q %s) (o!q Int)) (! (= (seqof r!q o!q 0) seq_empty) :pattern ((seqof r!q o!q 0))))", row), "seqof")
+	c.axiom("seq:len1", fmt.Sprintf("(forall ((r!q %s) (o!q Int)) (! (= (seqof r!q o!q 1) (seq_single (select r!q o!q))) :pattern ((seqof r!q o!q 1))))", row), "seqof")
+	c.axiom("seq:unitl", "(forall ((s!q SeqStr)) (! (= (seq_cat seq_empty s!q) s!q) :pattern ((seq_cat seq_empty s!q))))", "seq_cat")
+	c.axiom("seq:unitr", "(forall ((s!q SeqStr)) (! (= (seq_cat s!q seq_empty) s!q) :pattern ((seq_cat s!q seq_empty))))", "seq_cat")
+}
+
+// includeRawAxioms registers the package's raw (definitional) axioms in this context.
+func (e *Engine) includeRawAxioms() {
+	if e.rawDone {
+		return
+	}
+	e.rawDone = true
+	// declare every spec function first, so that the axioms' dependencies are complete
+	var names []string
+	for n := range e.w.spec.UFs {
+		names = append(names, n)
+	}
+	sort.Strings(names)
+	for _, n := range names {
+		e.declareUF(e.w.spec.UFs[n])
+	}
+	for i, ra := range e.w.spec.RawAxioms {
+		// included when ANY of the listed symbols is in the cone of the query
+		for _, w := range ra.When {
+			e.c.axiom(fmt.Sprintf("raw:%d:%s", i, w), ra.Body, w)
+		}
+	}
+}
+
+// declareUF declares the SMT function of an uninterpreted spec function.
+func (e *Engine) declareUF(uf *UFDecl) {
+	var sorts []Sort
+	for _, at := range uf.Args {
+		t := e.resolveType(at, uf.Pkg)
+		if sl, isSlice := t.(*types.Slice); t != nil && isSlice {
+			sorts = append(sorts, arrSort(SInt, e.fl.leaves(sl.Elem())[0].Sort), SInt, SInt)
+			continue
+		}
+		so := SInt
+		if t != nil {
+			so = e.fl.leaves(t)[0].Sort
+		}
+		sorts = append(sorts, so)
+	}
+	rs := SInt
+	if uf.Res.Name == "seq" && uf.Res.Pkg == "" {
+		e.seqSetup()
+		rs = "SeqStr"
+	} else if rt := e.resolveType(uf.Res, uf.Pkg); rt != nil && !(uf.Res.Name == "int" && uf.Res.Pkg == "") {
+		rs = e.fl.leaves(rt)[0].Sort
+	}
+	e.c.fun("uf_"+uf.Name, sorts, rs)
 }
